@@ -103,10 +103,28 @@ def cases(negs: dict, dense: bool) -> list[dict]:
     for tt in range(0, 14):
         for n in range(0, 22):
             add(2, 'mup-mvpn-srpolicy', update_with(build.attribute(0xC0, 22, bytes([0, tt]) + b'\x00\x01\x01' + bytes((i + 1) & 255 for i in range(n)))), 'pmsi')
-    for t in range(0, 4):
-        for declared in range(0, 16):
-            for have in (0, 3, 8, 11):
-                add(2, 'unicast-asn4', update_with(build.attribute(0x80, 26, struct.pack('!BH', t, declared) + bytes(have))), 'aigp')
+    # alone, and behind a well-formed TLV (unknown type 2, or a complete AIGP TLV): a length check that is only right at offset 0 shows there
+    for lead in (b'', struct.pack('!BH', 2, 8) + bytes([0xAA, 0xBB, 0xCC, 0xDD, 0xEE]), struct.pack('!BH', 1, 11) + bytes(8)):
+        for t in range(0, 4):
+            for declared in range(0, 16):
+                for have in (0, 3, 8, 11):
+                    add(2, 'unicast-asn4', update_with(build.attribute(0x80, 26, lead + struct.pack('!BH', t, declared) + bytes(have))), 'aigp')
+
+    # (e2) TLV lists: the SECOND element cut short or over-declared behind a well-formed first one (a bound that is only
+    # right for the first element of a list passes every single-element probe above)
+    pairs = [(d, h) for d in (0, 1, 3, 4, 7, 8, 11, 12, 21, 40) for h in (0, 1, 3, 5, 8, 11) if h != d]
+    for d, h in pairs:
+        for t in (1, 3, 5, 6, 9):
+            add(2, 'labeled-vpn', update_with(build.attribute(0xC0, 40, struct.pack('!BH', 1, 7) + bytes(7) + struct.pack('!BH', t, d) + bytes(h))), 'prefix-sid-tlv-second')
+        for tt in (15, 13, 65534):
+            add(2, 'mup-mvpn-srpolicy', update_with(build.attribute(0xC0, 23, struct.pack('!HH', 65535, 2) + b'ab' + struct.pack('!HH', tt, d) + bytes(h))), 'tunnel-tlv-second')
+        for st in (12, 13, 15, 20, 127, 128, 129):
+            second = bytes([st]) + (struct.pack('!H', d) if st >= 128 else bytes([d])) + bytes(h)
+            sub = bytes([127, 1, 0]) + second
+            add(2, 'mup-mvpn-srpolicy', update_with(build.attribute(0xC0, 23, struct.pack('!HH', 15, len(sub)) + sub)), 'tunnel-sub-tlv-second')
+        for st in (1, 2, 3):
+            sub = struct.pack('!BH', 7, 2) + b'ab' + struct.pack('!BH', st, d) + bytes(h)
+            add(2, 'mup-mvpn-srpolicy', update_with(build.attribute(0xC0, 40, struct.pack('!BH', 5, 1 + len(sub)) + b'\x00' + sub)), 'srv6-sub-tlv-second')
 
     # (f) extended community types: every (type, subtype) the registry could dispatch on
     for high in list(range(0, 16)) + list(range(0x40, 0x50)) + list(range(0x80, 0x90)):
